@@ -133,7 +133,7 @@ func UEnum(T []int, n1 int) *UTable {
 type u128 struct{ hi, lo uint64 }
 
 func (a *u128) addMul(b u128, m uint64) {
-	// a += b*m (no overflow by construction: totals stay below C(100,50) < 2^97)
+	// a += b*m (no overflow by construction: b*m is bounded by C(N,n1) < 2^126)
 	h1, l1 := bits.Mul64(b.lo, m)
 	h1 += b.hi * m
 	var c uint64
@@ -149,14 +149,15 @@ func (a u128) big() *big.Int {
 
 // UDP computes the table by a generating-function dynamic programme over rank
 // groups: state (items taken, twice the rank sum) -> exact count in 128-bit
-// integers. Requires C(N, n1) < 2^97 and C(t,r) < 2^63, true for N <= 100.
+// integers. Requires C(N, n1) < 2^126 (N <= 128): every partial product is
+// bounded by the total, so nothing overflows.
 func UDP(T []int, n1 int) *UTable {
 	N := 0
 	for _, t := range T {
 		N += t
 	}
-	if N > 100 {
-		panic("UDP: N too large")
+	if new(big.Int).Binomial(int64(N), int64(n1)).BitLen() > 126 {
+		panic("UDP: C(N,n1) does not fit the 128-bit counters")
 	}
 	mid := twiceMidranks(T)
 	n2 := N - n1
